@@ -88,6 +88,12 @@ fn run(args: &[String], checks: &[Box<dyn runner::Erased>]) -> i32 {
             }
             0
         }
+        Some("scenario") => {
+            let (Some(id), Some(seed), Some(index)) = (args.get(2), args.get(3), args.get(4)) else { usage() };
+            let Some(c) = checks.iter().find(|c| c.id() == id) else { usage() };
+            println!("{}", c.scenario(seed.parse().unwrap_or(1), index.parse().unwrap_or(0), tier_of(args.get(5))));
+            0
+        }
         Some("selftest") => selftest(checks, tier_of(args.get(3))),
         _ => usage(),
     }
